@@ -839,6 +839,16 @@ def check(pid, tier, seed):
                         if op.startswith("semfind16") and d["impl"] == "fuel":
                             stats["dist"]["fuel-skips"] = stats["dist"].get("fuel-skips", 0) + 1
                             continue
+                        if op == "runprog" and pid == "C05" and d["impl"].endswith(" fuel") and d["model"].startswith("ok "):
+                            # the implementation spent its whole budget where the reference ordered search (the executor
+                            # model, proved terminating) finishes: a concrete input on which the search does not halt
+                            # within K = 4 times the reference cost
+                            mi = re.match(r"ok (\d+) (\d+) fuel$", d["impl"])
+                            mm = re.match(r"ok (\d+) (\d+)", d["model"])
+                            if mi and mm and int(mi.group(1)) > 4 * int(mm.group(1)) + 64:
+                                violations.append({"kind": "impl-vs-spec", "case": d["request"][:4000],
+                                                   "what": "the search spent %s steps without finishing; the reference ordered search (executor model) finishes this case in %s steps" % (mi.group(1), mm.group(1))})
+                                continue
                         if op == "runprog" and (d["impl"].endswith(" fuel") or d["model"] == "fuel"):
                             # the harness' step budget (3M) was exhausted on the implementation (a C05 violation is
                             # raised by the harness where that matters); nothing to compare
